@@ -320,6 +320,11 @@ class Crate:
         shutil.rmtree(self.dir, ignore_errors=True)
 
 
+RUST_KEYWORDS = set("""as break const continue crate else enum extern false fn for if impl in let loop match mod move mut
+pub ref return self Self static struct super trait true type unsafe use where while async await dyn abstract become box do
+final macro override priv typeof unsized virtual yield try gen""".split())
+
+
 def classify(err, rs_line=""):
     """failure class of one rustc error (classes a-e are the known defects; anything else is `other`)"""
     m = err["message"]
@@ -329,9 +334,9 @@ def classify(err, rs_line=""):
         return "d", mm.group(1)
     if "bare CR not allowed in string" in m:
         return "c", None
-    if "expected identifier, found keyword" in m and re.search(r"pub const \w+\s*:", t):
-        kw = re.search(r"keyword `(\w+)`", m)
-        return "b", kw.group(1) if kw else None
+    mc = re.match(r"\s*pub const (\w+)\s*:", t)
+    if mc and mc.group(1) in RUST_KEYWORDS:
+        return "b", mc.group(1)
     if "#[aldrin(doc = " in t and ("expected" in m or "unknown character escape" in m or "unterminated" in m
                                    or "unknown start of token" in m or "prefix" in m or "suffix" in m
                                    or "unescaped" in m or "invalid" in m):
